@@ -612,6 +612,16 @@ impl FrameDecoder {
     }
 }
 
+#[cfg(feature = "verif_hooks")]
+impl FrameDecoder {
+    /// Verification-only read-only accessor: `(cap, head, tail)` of the output window's ring buffer.
+    pub fn verif_window_positions(&self) -> Option<(usize, usize, usize)> {
+        self.state
+            .as_ref()
+            .map(|s| s.decoder_scratch.buffer.verif_ring().verif_positions())
+    }
+}
+
 /// Read bytes from the decode_buffer that are no longer needed. While the frame is not yet finished
 /// this will retain window_size bytes, else it will drain it completely
 impl Read for FrameDecoder {
